@@ -7,6 +7,7 @@ package entropy
 import (
 	"bytes"
 	"context"
+	"errors"
 	"fmt"
 
 	"github.com/tink-crypto/tink-go/v2/aead"
@@ -41,7 +42,34 @@ type prim struct {
 	// envelope only: the key-encryption AEAD and the DEK's IV length
 	kek   tink.AEAD
 	dekIV int
+	fkek  *faultyKEK
 }
+
+// faultyKEK is the harness-owned key-encryption AEAD of an envelope primitive:
+// the key's factory AEAD, whose failAt-th Encrypt call (counted over the
+// original calls only, not over re-runs) fails once — a transient KMS error.
+type faultyKEK struct {
+	a      tink.AEAD
+	failAt int // 0: never
+	calls  int
+	failed int // Encrypt calls refused so far
+	live   func() bool
+}
+
+var errKEKDown = errors.New("harness: the key-encryption service is temporarily unavailable")
+
+func (f *faultyKEK) Encrypt(pt, ad []byte) ([]byte, error) {
+	if f.live == nil || f.live() {
+		f.calls++
+		if f.calls == f.failAt {
+			f.failed++
+			return nil, errKEKDown
+		}
+	}
+	return f.a.Encrypt(pt, ad)
+}
+
+func (f *faultyKEK) Decrypt(ct, ad []byte) ([]byte, error) { return f.a.Decrypt(ct, ad) }
 
 // DEK templates aead.NewKMSEnvelopeAEAD2 accepts.
 var dekTemplates = []struct {
@@ -59,11 +87,12 @@ var dekTemplates = []struct {
 // envelopePrim wraps the key's factory AEAD as the key-encryption AEAD of a
 // KMS envelope AEAD: every Encrypt generates a fresh DEK, encrypts it under
 // the KEK (KEK IV) and encrypts the data under the DEK (DEK IV).
-func envelopePrim(k key.Key, h *keyset.Handle, tpl int, withContext bool) (*prim, error) {
-	kek, err := aead.New(h)
+func envelopePrim(k key.Key, h *keyset.Handle, tpl int, withContext bool, failAt int, live func() bool) (*prim, error) {
+	inner, err := aead.New(h)
 	if err != nil {
 		return nil, err
 	}
+	kek := &faultyKEK{a: inner, failAt: failAt, live: live}
 	kt := dekTemplates[tpl].f()
 	par, err := protoserialization.ParseParameters(kt)
 	if err != nil {
@@ -79,11 +108,11 @@ func envelopePrim(k key.Key, h *keyset.Handle, tpl int, withContext bool) (*prim
 		if err != nil {
 			return nil, err
 		}
-		return &prim{kind: "envelope-ctx", prefixLen: outputPrefixLen(k), kek: kek, dekIV: iv,
+		return &prim{kind: "envelope-ctx", prefixLen: outputPrefixLen(k), kek: kek, dekIV: iv, fkek: kek,
 			produce: func(msg, aad []byte) ([]byte, error) { return env.EncryptWithContext(context.Background(), msg, aad) }}, nil
 	}
 	env := aead.NewKMSEnvelopeAEAD2(kt, kek)
-	return &prim{kind: "envelope", prefixLen: outputPrefixLen(k), produce: env.Encrypt, kek: kek, dekIV: iv}, nil
+	return &prim{kind: "envelope", prefixLen: outputPrefixLen(k), produce: env.Encrypt, kek: kek, dekIV: iv, fkek: kek}, nil
 }
 
 func outputPrefixLen(k key.Key) int {
